@@ -304,7 +304,70 @@ def emit(specs):
     w("pub static FUNCS: &[FnDesc] = &[")
     o.extend(descs)
     w("];")
+    w("")
+    emit_extras(w)
     return "\n".join(o) + "\n"
+
+
+def emit_extras(w):
+    """Forms the descriptor-driven monitors cannot express: functions that call themselves *by
+    name* from their own body (what a recursive memoised function does) and functions that
+    return nothing.  Checked by l2mon's extras probe with a few direct rules."""
+    w("// ---- extras: self-recursive (by name) and unit-returning functions")
+    w("pub struct ExtraDesc { pub fid: u32, pub kind: &'static str, pub fn_name: &'static str, pub is_async: bool, pub scope_thread: bool, pub policy: &'static str, pub limit: Option<usize>, pub attr_text: &'static str, pub call: fn(u32) -> u64, pub digest: fn(u32) -> u64 }")
+    rows = []
+    fid = 9000
+    recs = [("cache", ""), ("cache", 'limit = 3, policy = "lru"'), ("cache", 'limit = 2'), ("cache", 'policy = "lfu", limit = 4'), ("cache", 'scope = "thread"'), ("cache", 'scope = "thread", limit = 2, policy = "lru"'),
+            ("cache", 'scope = "thread", policy = "arc", limit = 3'), ("cache", 'max_memory = "1KB", policy = "tlru"'), ("cache_async", ""), ("cache_async", 'limit = 3, policy = "lru"'), ("cache_async", 'limit = 2, policy = "fifo"'), ("cache_async", 'policy = "arc", limit = 4, ttl = 3600')]
+    for macro, attrs in recs:
+        fid += 1
+        is_async = macro == "cache_async"
+        attr_line = f"#[{macro}({attrs})]" if attrs else f"#[{macro}]"
+        name = f"rec_{fid}"
+        inner = f"Box::pin({name}(a - 1)).await" if is_async else f"{name}(a - 1)"
+        w(f"{attr_line}\npub {'async ' if is_async else ''}fn {name}(a: u32) -> u64 {{\n        let x = vhooks::enter({fid}, vhooks::dg(&(&a, )));\n        if a % 16 == 0 {{ x.value }} else {{ x.value.wrapping_add({inner}) }}\n}}")
+        w(f"pub fn xcall_{fid}(a: u32) -> u64 {{ {'vhooks::block_on(' + name + '(a))' if is_async else name + '(a)'} }}")
+        w(f"pub fn xdig_{fid}(a: u32) -> u64 {{ vhooks::dg(&(&a, )) }}")
+        lim = None
+        import re as _re
+        m = _re.search(r"limit = (\d+)", attrs)
+        if m:
+            lim = int(m.group(1))
+        pol = (_re.search(r'policy = "(\w+)"', attrs) or [None, "fifo"])[1]
+        rows.append((fid, "rec", name, is_async, 'scope = "thread"' in attrs, pol, lim, attr_line))
+    units = [("cache", "", ""), ("cache", "limit = 8", " -> ()"), ("cache", 'scope = "thread"', ""), ("cache", 'name = "unit_named"', " -> ()"), ("cache_async", "", ""), ("cache_async", 'limit = 8, policy = "lru"', " -> ()")]
+    for macro, attrs, arrow in units:
+        fid += 1
+        is_async = macro == "cache_async"
+        attr_line = f"#[{macro}({attrs})]" if attrs else f"#[{macro}]"
+        name = f"unit_{fid}"
+        w(f"{attr_line}\npub {'async ' if is_async else ''}fn {name}(a: u32){arrow} {{\n        let _x = vhooks::enter({fid}, vhooks::dg(&(&a, )));\n}}")
+        w(f"pub fn xcall_{fid}(a: u32) -> u64 {{ {'vhooks::block_on(' + name + '(a))' if is_async else name + '(a)'}; 0 }}")
+        w(f"pub fn xdig_{fid}(a: u32) -> u64 {{ vhooks::dg(&(&a, )) }}")
+        m = _re.search(r"limit = (\d+)", attrs)
+        lim = int(m.group(1)) if m else None
+        pol = (_re.search(r'policy = "(\w+)"', attrs) or [None, "fifo"])[1]
+        rows.append((fid, "unit", name, is_async, 'scope = "thread"' in attrs, pol, lim, attr_line))
+    # two caches registered under one name, and one function name in two modules: whatever the
+    # registries make of the clash, every *other* cache must be unaffected (they are called first)
+    dups = [("cache", 'name = "dup_shared_name"', "dup_a"), ("cache_async", 'name = "dup_shared_name", limit = 4', "dup_b"), ("cache", "limit = 5", "dup_m1::same_name"), ("cache", "", "dup_m2::same_name")]
+    for macro, attrs, path in dups:
+        fid += 1
+        is_async = macro == "cache_async"
+        attr_line = f"#[{macro}({attrs})]" if attrs else f"#[{macro}]"
+        body = f"{attr_line}\npub {'async ' if is_async else ''}fn {path.split('::')[-1]}(a: u32) -> u64 {{\n        let x = vhooks::enter({fid}, vhooks::dg(&(&a, )));\n        x.value\n}}"
+        if "::" in path:
+            w(f"pub mod {path.split('::')[0]} {{\nuse cachelito::cache;\n{body}\n}}")
+        else:
+            w(body)
+        w(f"pub fn xcall_{fid}(a: u32) -> u64 {{ {'vhooks::block_on(' + path + '(a))' if is_async else path + '(a)'} }}")
+        w(f"pub fn xdig_{fid}(a: u32) -> u64 {{ vhooks::dg(&(&a, )) }}")
+        rows.append((fid, "dup", path, is_async, False, "fifo", None, attr_line))
+    w("pub static EXTRAS: &[ExtraDesc] = &[")
+    for (fid, kind, name, is_async, th, pol, lim, attr_line) in rows:
+        w("    ExtraDesc { fid: %d, kind: \"%s\", fn_name: \"%s\", is_async: %s, scope_thread: %s, policy: \"%s\", limit: %s, attr_text: %s, call: xcall_%d, digest: xdig_%d },"
+          % (fid, kind, name, str(is_async).lower(), str(th).lower(), pol, rs_opt(lim), "r####\"" + attr_line + "\"####", fid, fid))
+    w("];")
 
 
 specs = make_specs()
